@@ -364,7 +364,11 @@ class Interp:
             return self.call_function(fn, args, kwargs)
         if (q in S.native or full in S.native) and not V.contains_sym(args) and not V.contains_sym(kwargs):
             return self.native_call(fn, args, kwargs)
-        raise Unsupported(f"call to {full} has no contract (add a handler, or list it as inline)")
+        # A repo function the contract file says nothing about (typically a helper introduced by a later change to
+        # /repo): executing its real body is always sound - contracts on callees are a modularity device, not a
+        # soundness one - so it is inlined, and the evidence says so.
+        S.note(f"inlined without a contract of its own: {full}")
+        return self.call_function(fn, args, kwargs)
 
     def native_call(self, f: Any, args: list[Any], kwargs: dict[str, Any]) -> Any:
         if self.models.is_impure(f):
